@@ -15,7 +15,8 @@ EXPLANATION = (
     'boxed closure as a candidate for dynamic calls, is acyclic and has no self edge; R08.c every load of aborted/finished/woken is at '
     'least Acquire, every store at least Release, and the timer counter is only touched by an atomic read-modify-write; R08.d the '
     'eviction test reads the waker count before the woken flag with an Acquire fence in between (the reverse of the order in which '
-    'CommandWaker publishes them). Linearizability of concurrent calls is not decided.')
+    'CommandWaker publishes them); R08.e Command::poll_next registers the host waker before it runs tasks or reads its queues (a resolve on '
+    'another thread landing after the last look but before a late registration would wake nobody). Linearizability of concurrent calls is not decided.')
 
 LOCK_CALLS = ['std::sync::poison::mutex::Mutex::lock', 'std::sync::poison::rwlock::RwLock::read',
               'std::sync::poison::rwlock::RwLock::write', 'std::sync::poison::mutex::Mutex::try_lock']
@@ -318,6 +319,10 @@ def check(ctx, rep):
         ok = len(sends) == 1 and len(stores) == 1 and g.dominates(sends[0], stores[0]) and sends[0] != stores[0]
         rep.expect('R08.d', ok, 'writer-order', 'enqueue id, then woken.store(Release) (the Arc is dropped by the caller afterwards)',
                    'CommandWaker::wake_by_ref no longer enqueues the task before it stores `woken`')
+    # R08.e: check-then-register races (shared with C05 R05.a)
+    from rules.props import c05
+    rep.rule('R08.e', 'a hosted command registers the host\'s waker before it runs tasks or looks at its queues, so a wake from another thread is never lost', floor=3)
+    c05.check_register_before_look(rep, 'R08.e', core)
     rep.assume('Arc drop decrements the strong count with Release; an Acquire fence after reading the decremented count synchronises with it')
     rep.assume('user-supplied closures, futures and App::update are outside the lock-order graph')
 
